@@ -47,6 +47,7 @@ try:
     meta['caught_with_failing_input'] = sorted(c for c, r in res.items() if any('no-failing-input-found' not in v for v in r['violations']))
 finally:
     sh('git checkout -- .', '/repo')
+    sh('rm -f cmd/thermal-recorder/config.toml.lock', '/repo')   # left behind by the repository's own tests
     # facts back to the unchanged tree
     subprocess.run(['./check', 'C20', 'quick'], cwd=V, capture_output=True)
 # 2. demo: with patch (worktree state as left by the agent) and without
